@@ -126,8 +126,19 @@ fn prepare(cfg: &Config) {
 }
 
 /// Generates and executes one run online. The recorded scenario replays exactly.
-pub fn run_generated(prop: &str, spec: RunSpec, seed: u64, rng: &mut Rng, mut trace: Option<&mut Trace>) -> RunResult {
-    let RunSpec { world, cfg, mut gen, n_ops } = spec;
+pub fn run_generated(prop: &str, spec: RunSpec, seed: u64, rng: &mut Rng, mut trace: Option<&mut Trace>, prefix: Option<&Scenario>) -> RunResult {
+    let RunSpec { mut world, mut cfg, mut gen, mut n_ops } = spec;
+    // corpus-seeded run: start from the state a recorded scenario reaches, then keep generating
+    let mut prefix_ops: Vec<Op> = Vec::new();
+    if let Some(p) = prefix {
+        world = p.world.clone();
+        let keep = (cfg.callback_cap, cfg.churn_bound, cfg.group_monitor);
+        cfg = p.cfg.clone();
+        cfg.callback_cap = cfg.callback_cap.max(keep.0);
+        cfg.group_monitor = cfg.group_monitor || keep.2;
+        prefix_ops = p.ops.iter().cloned().map(|mut o| { o.f = None; o }).collect();
+        n_ops = prefix_ops.len() + n_ops.min(60);
+    }
     prepare(&cfg);
     if let Some(t) = trace.as_deref_mut() {
         t.begin(prop, &world, seed, &cfg);
@@ -138,8 +149,12 @@ pub fn run_generated(prop: &str, spec: RunSpec, seed: u64, rng: &mut Rng, mut tr
         let mut op_counts = Vec::new();
         let mut violation = None;
         for i in 0..n_ops {
-            let view = w.view();
-            let op = gen.next(rng, &view);
+            let op = if i < prefix_ops.len() {
+                prefix_ops[i].clone()
+            } else {
+                let view = w.view();
+                gen.next(rng, &view)
+            };
             if let Some(t) = trace.as_deref_mut() {
                 t.op(&op);
             }
@@ -210,6 +225,8 @@ pub struct WorkerOpts {
     pub emit: Option<String>,
     /// replay the scenarios of this file instead of generating (C18, second build)
     pub batch: Option<String>,
+    /// directory of recorded scenarios of this property: every sixth run starts from one of them
+    pub corpus: Option<String>,
 }
 
 fn cpu_seconds() -> f64 {
@@ -306,6 +323,21 @@ pub fn worker(o: WorkerOpts) -> i32 {
             })
             .collect()
     });
+    let corpus: Vec<Scenario> = o
+        .corpus
+        .as_ref()
+        .map(|d| {
+            let mut files: Vec<_> = std::fs::read_dir(d).map(|r| r.filter_map(|e| e.ok()).map(|e| e.path()).collect()).unwrap_or_default();
+            files.sort();
+            files
+                .iter()
+                .filter_map(|f| std::fs::read_to_string(f).ok())
+                .filter_map(|t| serde_json::from_str::<serde_json::Value>(&t).ok())
+                .filter_map(|v| serde_json::from_value::<Scenario>(v["scenario"].clone()).ok())
+                .collect()
+        })
+        .unwrap_or_default();
+    let mut corpus_runs = 0u64;
     let mut emit = o.emit.as_ref().map(|p| std::io::BufWriter::new(std::fs::File::create(p).expect("emit file")));
     let indices: Vec<u64> = match &batch {
         Some(b) => b.iter().map(|x| x.0).collect(),
@@ -345,8 +377,24 @@ pub fn worker(o: WorkerOpts) -> i32 {
                 r
             }
             None => {
-                let spec = profiles::spec_for(&o.prop, o.thorough, &mut rng);
-                run_generated(&o.prop, spec, seed, &mut rng, trace.as_mut())
+                let mut spec = profiles::spec_for(&o.prop, o.thorough, &mut rng);
+                let mut prefix = None;
+                if !corpus.is_empty() && i % 6 == 5 {
+                    let p = &corpus[((i / 6) as usize) % corpus.len()];
+                    let fam = |w: &str| w.chars().next().unwrap_or('M');
+                    // the generator must speak the recorded world's family
+                    for _ in 0..24 {
+                        if fam(&spec.world) == fam(&p.world) {
+                            break;
+                        }
+                        spec = profiles::spec_for(&o.prop, o.thorough, &mut rng);
+                    }
+                    if fam(&spec.world) == fam(&p.world) {
+                        prefix = Some(p);
+                        corpus_runs += 1;
+                    }
+                }
+                run_generated(&o.prop, spec, seed, &mut rng, trace.as_mut(), prefix)
             }
         };
         if let Some(f) = emit.as_mut() {
@@ -472,6 +520,7 @@ pub fn worker(o: WorkerOpts) -> i32 {
         "worlds": worlds,
         "digest": format!("{:016x}", digest_all.0),
         "digests": digests.iter().map(|(i, d)| json!([i, format!("{:016x}", d)])).collect::<Vec<_>>(),
+        "corpus_seeded_runs": corpus_runs,
         "enum_targets": enum_targets,
         "enum_execs": enum_execs,
         "truncated": truncated,
